@@ -74,6 +74,17 @@
 (* schedule in the bound; with FALSE it proves CorrectModuloKnown (nothing *)
 (* but the named deviations) and yields counterexamples to Correct.        *)
 (*                                                                         *)
+(* Round 4: a type's @requires directives give a SEQUENCE of required      *)
+(* paths (Req), flat or nested, possibly repeated; the distinct paths are   *)
+(* the SLOTS of the entity. Populate is the requires-population step: one   *)
+(* assignment per entry, each from the value the SAME representation       *)
+(* carries for THAT path; an element records per slot which (representation,*)
+(* path) value it holds (ps). PsIdeal is the prescription; ElemOK demands   *)
+(* list[i].ps = PsIdeal. Probe types P / Pm: flat dimsVol beside nested     *)
+(* dims { vol } (same concatenated Go name), dims { vol } / dims { wt }     *)
+(* (shared prefix), dims { vol } / box { vol } (same leaf, two parents),    *)
+(* dims { vol } required twice.                                            *)
+(*                                                                         *)
 (* The schema is that of harness/probes/fed2 (types S K N M R Rm); a       *)
 (* representation is abstracted to its KIND (typename + status of each key *)
 (* field: value / null / absent / parent-not-an-object).  Key and @requires*)
